@@ -10,7 +10,7 @@ From RU Require Import Base.Prelude Base.Utf8 Base.Utf8Facts Model.AsciiSet Gen.
   Proofs.C05_Comp Proofs.C05_PathClean Proofs.C05_CompSteps Proofs.C05_CompHist
   Proofs.C06_Path Proofs.C06_Segments Proofs.C04_ParseTotal Proofs.C03_ReachParts
   Proofs.C05_ParseUI Proofs.C05_ParseAll Proofs.C05_CompSteps2 Proofs.C05_CompReach Proofs.C05_ParseEx
-  Proofs.C06_Suffix Proofs.C05_BaseOk Proofs.C05_CompSteps3 Proofs.C05_FinEx.
+  Proofs.C03_WF Proofs.C06_Suffix Proofs.C05_BaseOk Proofs.C05_CompSteps3 Proofs.C05_FinEx Proofs.C05_Alphabet.
 
 (* ================= 1. encoder alphabet ================= *)
 
@@ -505,6 +505,20 @@ Print Assumptions C05_reach3_sub.
    (HostWf, IpDisp): parse "http://h.x/a?q"; quirks set_host "o.x:81"; set_ip_host 1.2.3.4 ... - see fin_example_stmt *)
 Example C05_components_reach3_inhabited : fin_example_stmt.
 Proof. exact fin_example. Qed.
+
+(* ---- from the component clauses to the alphabet of the WHOLE serialization (first sentence of the property text).
+   alphabet_ok u (Proofs/C05_Alphabet.v) := ser u = A ++ pth ++ Z with path u = Some pth, A and Z inside 0x21..0x7E,
+   pth inside 0x20..0x7E, and pth inside 0x21..0x7E unless cannot_be_a_base u: U+0020 solely inside an opaque path.
+   It holds for every record with CInv whose bytes are inside 0x20..0x7E (C05_history: every reachable record) and
+   whose stored host text has no space - the serialization is read as the concatenation of the accessors (C03_concat).
+   What is missing for C05_history_sharp_statement along mutator histories is only that the host text of a reached
+   record has no space (true of every parse result: C05_bytes), see C05_alphabet_reach. *)
+Theorem C05_alphabet_of_components : forall dbg u, CInv dbg u -> Forall ok_or_space (ser u) ->
+  (has_host u = true -> ~ In 32 (piece u (host_start u) (host_end u))) -> alphabet_ok u.
+Proof. exact cinv_alphabet. Qed.
+Check C05_alphabet_of_components : forall dbg u, CInv dbg u -> Forall ok_or_space (ser u) ->
+  (has_host u = true -> ~ In 32 (piece u (host_start u) (host_end u))) -> alphabet_ok u.
+Print Assumptions C05_alphabet_of_components.
 
 (* ================= non-vacuity ================= *)
 Definition ex_hp (s : list N) : result host := Ok (HDomain s).
